@@ -92,6 +92,8 @@ type HarnessResult struct {
 	Samples    []map[string]interface{}
 	Params     map[string]int
 	Cases      []ValidationCase
+	CrossChecked int
+	SolverTime2  time.Duration
 }
 
 func mergeStats(dst *Stats, src *Stats) {
@@ -155,6 +157,11 @@ func newWorker(l *Loaded, spec HarnessSpec, params map[string]int, known map[str
 		return nil, err
 	}
 	e.solver = s
+	if os.Getenv("SYMGO_NO_CROSS") == "" {
+		if s2, err := NewSolver("z3-new", []string{"-in"}, 60000); err == nil {
+			e.solver2 = s2
+		}
+	}
 	st := e.newState()
 	e.runInit(st, pkg)
 	return &worker{e: e, init: st, fn: fn}, nil
@@ -204,6 +211,7 @@ func runHarness(l *Loaded, spec HarnessSpec, tier string, known map[string]Known
 	for _, d := range depths {
 		if sw != nil {
 			sw.e.solver.Close()
+			sw.e.solver2.Close()
 		}
 		sw, err = newWorker(l, spec, params, known, trace)
 		if err != nil {
@@ -233,6 +241,11 @@ func runHarness(l *Loaded, spec HarnessSpec, tier string, known map[string]Known
 		res.SolverUnknown += e.solver.UnknownN
 		res.SolverTime += e.solver.Time
 		res.SolverErrors = append(res.SolverErrors, e.solver.Errors...)
+		if e.solver2 != nil {
+			res.SolverErrors = append(res.SolverErrors, e.solver2.Errors...)
+			res.CrossChecked += e.crossChecked
+			res.SolverTime2 += e.solver2.Time
+		}
 		for _, v := range e.violations {
 			dup := false
 			for _, o := range res.Violations {
@@ -259,6 +272,7 @@ func runHarness(l *Loaded, spec HarnessSpec, tier string, known map[string]Known
 	}
 	collect(sw.e)
 	sw.e.solver.Close()
+	sw.e.solver2.Close()
 	if len(prefixes) > 0 {
 		ch := make(chan []int, len(prefixes))
 		for _, p := range prefixes {
@@ -291,6 +305,7 @@ func runHarness(l *Loaded, spec HarnessSpec, tier string, known map[string]Known
 				}
 				collect(w.e)
 				w.e.solver.Close()
+				w.e.solver2.Close()
 			}()
 		}
 		wg.Wait()
